@@ -535,7 +535,20 @@ fn mapped(ctx: &mut Ctx, cov: &mut HashSet<String>) {
         if !ctx.begin_case() { continue; }
         let mut rng: Rng = ctx.rng(0xC08_500 + c as u64);
         // One file: Vec<u64>, bytes, string, RawVector, IntVector (all written by the library).
-        let vu: Vec<u64> = (0..rng.below(40)).map(|_| rng.next_u64()).collect();
+        let mut vu: Vec<u64> = (0..rng.below(40)).map(|_| rng.next_u64()).collect();
+        // Some items are chosen so that, read as the length of a structure that starts at their own position, the usual
+        // "offset + 1 + length" bound wraps around (the vector is the first structure: item i is element i + 1 of the file).
+        for i in 0..vu.len() {
+            let at = (i + 1) as u64;
+            match rng.below(9) {
+                0 => vu[i] = (u64::MAX - at - 1).wrapping_add(rng.below(4) as u64),          // offset + 1 + len wraps to 0..3
+                1 => vu[i] = (1u64 << 63) + rng.below(8) as u64,               // 2 * len wraps (pairs)
+                2 => vu[i] = u64::MAX - rng.below(8) as u64,                   // bytes_to_words(len) wraps
+                3 => vu[i] = ((u64::MAX / 8) * 8 - 8 * at).wrapping_add(8 * rng.below(3) as u64), // byte length whose word count + offset wraps
+                4 => vu[i] = (1u64 << 61) + rng.below(3) as u64,               // 8 * len wraps (bit lengths)
+                _ => {},
+            }
+        }
         let by: Vec<u8> = (0..rng.below(40)).map(|_| rng.next_u64() as u8).collect();
         let st: String = (0..rng.below(40)).map(|i| (b'a' + (i % 26) as u8) as char).collect();
         let bits: Vec<bool> = (0..rng.below(500)).map(|_| rng.chance(1, 2)).collect();
@@ -562,7 +575,7 @@ fn mapped(ctx: &mut Ctx, cov: &mut HashSet<String>) {
         let mi = IntVectorMapper::new(&map, off[4]).unwrap();
         for _ in 0..steps {
             let mut r2 = rng.clone();
-            match rng.below(17) {
+            match rng.below(19) {
                 0 => { let (a, cls) = hostile(&mut rng, ms.len()); h.call("MappedSlice::index", cls, a, || ms[a]) },
                 1 => h.call("MappedSlice::deref", "-", 0, || (ms.iter().copied().fold(0u64, |x, y| x ^ y), ms.len(), ms.is_empty(), ms.as_ref().len())),
                 2 => { let (a, cls) = hostile(&mut rng, mb.len()); h.call("MappedBytes::index", cls, a, || mb[a]) },
@@ -579,6 +592,26 @@ fn mapped(ctx: &mut Ctx, cov: &mut HashSet<String>) {
                 14 => h.call("IntVectorMapper::accessors", "-", 0, || { let r: &RawVectorMapper = mi.as_ref(); (r.len(), mi.max_len(), mi.width(), mi.is_empty(), mi.map_offset(), mi.map_len()) }),
                 15 => h.call("RawVectorMapper::as_ref", "-", 0, || { let sl: &MappedSlice<u64> = mr.as_ref(); (sl.len(), mr.map_offset(), mr.map_len(), map.filename().to_path_buf(), map.mode(), map.len(), map.is_empty()) }),
                 16 => { let (a, cls) = hostile(&mut rng, (mr.len() + 63) / 64); let w = 1 + rng.below(64); h.call("RawVectorMapper::int", cls, a, || if a.checked_add(w).map(|e| e <= mr.len()).unwrap_or(false) { unsafe { mr.int(a, w) } } else { 0 }) },
+                17 | 18 => {
+                    // Views of EVERY type at ANY offset of the library-written file (whatever the words there mean as a
+                    // length): refused or granted, but a granted view must lie inside the mapping.
+                    let a = if rng.chance(1, 2) { rng.below(map.len() + 1) } else { hostile(&mut rng, map.len()).0 };
+                    let base = { let s: &[u64] = map.as_ref(); s.as_ptr() as usize };
+                    let end = base + map.len() * 8;
+                    let inside = |p: usize, bytes: usize| p >= base && p.checked_add(bytes).map(|e| e <= end).unwrap_or(false);
+                    let mut bad: Option<String> = None;
+                    h.call("MemoryMapped::new.any_type", "in", a, || {
+                        if let Ok(v) = MappedSlice::<u64>::new(&map, a) { if !inside(v.as_ref().as_ptr() as usize, v.len().saturating_mul(8)) { bad = Some(format!("MappedSlice<u64> of {} items", v.len())); } }
+                        if let Ok(v) = MappedSlice::<(u64, u64)>::new(&map, a) { if !inside(v.as_ref().as_ptr() as usize, v.len().saturating_mul(16)) { bad = Some(format!("MappedSlice<(u64,u64)> of {} items", v.len())); } }
+                        if let Ok(v) = MappedBytes::new(&map, a) { if !inside(v.as_ref().as_ptr() as usize, v.len()) { bad = Some(format!("MappedBytes of {} bytes", v.len())); } }
+                        if let Ok(v) = MappedStr::new(&map, a) { if !inside(v.as_ptr() as usize, v.len()) { bad = Some(format!("MappedStr of {} bytes", v.len())); } }
+                        if let Ok(v) = RawVectorMapper::new(&map, a) { let sl: &MappedSlice<u64> = v.as_ref(); if !inside(sl.as_ref().as_ptr() as usize, sl.len().saturating_mul(8)) { bad = Some(format!("RawVectorMapper over {} words", sl.len())); } }
+                        if let Ok(v) = IntVectorMapper::new(&map, a) { let r: &RawVectorMapper = v.as_ref(); let sl: &MappedSlice<u64> = r.as_ref(); if !inside(sl.as_ref().as_ptr() as usize, sl.len().saturating_mul(8)) { bad = Some(format!("IntVectorMapper over {} words", sl.len())); } }
+                    });
+                    if let Some(b) = bad {
+                        h.ctx.violation("mapped_view.outside_the_mapping", format!("a view created at element {} of a {}-element mapped file covers memory outside the mapping: {} on {}", a, map.len(), b, h.what));
+                    }
+                },
                 11 | _ => {
                     // New views at hostile offsets (refused or granted, never out of the mapping).
                     let (a, cls) = hostile(&mut rng, map.len());
